@@ -4,16 +4,20 @@ From PM Require Import Lib.Bytes Net.Conn Net.ConnCases Net.Handler Net.Tunnel N
 From Coq Require Import ZArith.
 
 (* one loop iteration: the event this work got (if any) and the time (offset from t0) is_inactive() reads *)
-Definition iter_of (t0 : Z) (x : option cev * N) : loop_iter :=
-  mkIter (match fst x with Some e => Some (fst (ev_of t0 e)) | None => None end) (t0 + Z.of_N (snd x)).
+(* I = iteration: event, time offset, were tasks left unfinished by _run_once (observed on the real loop) *)
+Inductive cit := I (e : option cev) (off : N) (unfinished : bool).
+Definition iter_of (t0 : Z) (x : cit) : loop_iter :=
+  match x with
+  | I e off u => mkIter (match e with Some e => Some (fst (ev_of t0 e)) | None => None end) (t0 + Z.of_N off) u
+  end.
 
 Definition pair_eqb (a b : bool * N) : bool := Bool.eqb (fst a) (fst b) && (snd a =? snd b).
 
 Inductive reaper_case :=
 (* threadless: per iteration (did the sweep run, fate afterwards); bytes at the client peer and its socket state at the end *)
-| CReaperTL (tc : tcfg) (c : cfg) (t0 : Z) (its : list (option cev * N)) (exp : list (bool * N)) (cout : bytes) (cclosed : bool)
+| CReaperTL (tc : tcfg) (c : cfg) (t0 : Z) (its : list cit) (exp : list (bool * N)) (cout : bytes) (cclosed : bool)
 (* threaded: per iteration the fate afterwards; the harness ends run() after the last iteration, so shutdown() always runs *)
-| CReaperTH (c : cfg) (t0 : Z) (sel : list (option outcome)) (its : list (option cev * N)) (exp : list N) (cout : bytes) (cclosed : bool).
+| CReaperTH (c : cfg) (t0 : Z) (sel : list (option outcome)) (its : list cit) (exp : list N) (cout : bytes) (cclosed : bool).
 
 Definition check_reaper_case (rc : reaper_case) : bool :=
   match rc with
